@@ -141,6 +141,25 @@ def check_epoch(prop: str, res: Result, repo: Repo):
         kw = ret.value.keywords[0]
         # the number is the rest of the very string whose prefix was tested
         got[k] = (kw.arg, ast.unparse(kw.value).replace(" ", "").replace(recv, "<tf>"))
+    if not got:
+        # table form:  UNIT = {"S": "seconds", ...}[prefix] ; return timedelta(**{UNIT: int(tf[1:])})
+        tables = {}
+        for st in tf.tree.body:
+            if isinstance(st, ast.Assign) and len(st.targets) == 1 and isinstance(st.targets[0], ast.Name) and isinstance(st.value, ast.Dict) and st.value.keys and all(isinstance(k_, ast.Constant) and isinstance(v_, ast.Constant) for k_, v_ in zip(st.value.keys, st.value.values)):
+                tables[st.targets[0].id] = {k_.value: v_.value for k_, v_ in zip(st.value.keys, st.value.values)}
+        rets = [n for n in ast.walk(t2.node) if isinstance(n, ast.Return) and isinstance(n.value, ast.Call) and call_name(n.value) == "timedelta" and not n.value.args and len(n.value.keywords) == 1 and n.value.keywords[0].arg is None and isinstance(n.value.keywords[0].value, ast.Dict) and len(n.value.keywords[0].value.keys) == 1]
+        ldefs = {n.targets[0].id: n.value for n in ast.walk(t2.node) if isinstance(n, ast.Assign) and len(n.targets) == 1 and isinstance(n.targets[0], ast.Name)}
+        if len(rets) == 1:
+            key_e, val_e = rets[0].value.keywords[0].value.keys[0], rets[0].value.keywords[0].value.values[0]
+            unit_def = ldefs.get(key_e.id) if isinstance(key_e, ast.Name) else key_e
+            if isinstance(unit_def, ast.Subscript) and isinstance(unit_def.value, ast.Name) and unit_def.value.id in tables:
+                num = ast.unparse(val_e).replace(" ", "")
+                import re as _re
+
+                m_ = _re.fullmatch(r"int\((\w+)\[1:\]\)", num)
+                if m_ and m_.group(1) in ast.unparse(unit_def.slice):
+                    for k_, u_ in tables[unit_def.value.id].items():
+                        got[k_] = (u_, "int(<tf>[1:])")
     for k, unit in want.items():
         if k in got and got[k][0] == unit and got[k][1] in ("int(<tf>[1:])",):
             res.ok(rule, {"site": t2.where, "unit": f"{k} -> timedelta({unit}=int(rest))"})
